@@ -61,6 +61,7 @@ class Edge:
     sync: str = ""  # non-empty for primitive sync operations (used by the replay scheduler)
     access: list = field(default_factory=list)  # [(field name, frozenset of lock names held)] for lock-protection analysis
     mover: str = ""  # "R" lock acquire (right mover), "L" lock release (left mover)
+    postcall: bool = False  # the operation runs after a call on the same source line returned (no line event of its own)
 
 
 class Universe:
@@ -152,6 +153,7 @@ class Model:
         self.errors_var = "model_error"
         self.vars[self.errors_var] = 0
         self.node_info: dict[int, str] = {}
+        self.files: list[str] = []      # source files of the compiled code ("<scenario:NAME>" for harness programs)
 
     def new_node(self, info="") -> int:
         self.node_count += 1
@@ -295,10 +297,14 @@ class Compiler:
     def emit(self, ctx, src, dst, guard=C(1), updates=(), visible=True, info="", node=None, kind="step", sync="", access=None):
         ln = 0
         if node is not None and hasattr(node, "lineno"):
-            ln = node.lineno + ctx.line0
+            # key = file index * 100000 + absolute line number in that file
+            if ctx.file not in self.m.files:
+                self.m.files.append(ctx.file)
+            ln = self.m.files.index(ctx.file) * 100000 + node.lineno + ctx.line0
         e = Edge(ctx.thread, src, dst, guard, list(updates), visible, kind, info or (ast.unparse(node)[:60] if node is not None else ""), ln, sync)
         if access:
             e.access = [(f, frozenset(ctx.held)) for f in access]
+        e.postcall = bool(ctx.frames and getattr(ctx.frame, "postcall", False))
         self.m.edges.append(e)
         return e
 
@@ -333,7 +339,7 @@ class Compiler:
         if dynamic:
             self.m.var(f"active.{name}", 0)
             self.dynamic_slots.append(name)
-        ctx = Ctx(self, name, line0=0, file="<scenario>")
+        ctx = Ctx(self, name, line0=0, file=f"<scenario:{name}>")
         frame = ctx.push_frame("main")
         for a in fn.args.args:
             v = self.m.var(f"L.{name}.main.{a.arg}", (args or {}).get(a.arg, UNSET))
@@ -357,6 +363,7 @@ class Compiler:
         return cur
 
     def stmt(self, ctx, s, cur):
+        ctx.frame.postcall = False      # a new statement starts on a new line: it gets its own line event
         meth = getattr(self, "s_" + type(s).__name__, None)
         if meth is None:
             self.err(s, f"unsupported statement {type(s).__name__}")
@@ -1139,6 +1146,7 @@ class Compiler:
         fr = ctx.push_frame(fnode.name, tag=f"{fnode.name}{self.inline_id}")
         old_line0, old_file = ctx.line0, ctx.file
         ctx.line0 = getattr(fnode, "_owner_line0", 1) - 1
+        ctx.file = getattr(fnode, "_owner_file", ctx.file)
         params = [a.arg for a in fnode.args.args]
         defaults = fnode.args.defaults
         bind = {}
@@ -1195,13 +1203,16 @@ class Compiler:
             self.emit(ctx, end, fr.ret_node, updates=[(V(fr.ret_var), C(NONE))], visible=False, info="implicit return")
         ctx.pop_frame()
         ctx.line0, ctx.file = old_line0, old_file
+        ctx.frame.postcall = True       # what the caller does next on this line happens without a new line event
         return fr.ret_node, V(fr.ret_var)
 
     def call_value(self, ctx, fval, node, cur):
         """call of a value: a harness task token or a bound-method token"""
         args = node.args
         if "call_value" in self.extra_stubs:
-            return self.extra_stubs["call_value"](self, ctx, fval, node, cur)
+            r = self.extra_stubs["call_value"](self, ctx, fval, node, cur)
+            ctx.frame.postcall = True     # what follows on this line runs after the callee's own gates
+            return r
         self.err(node, "call of a dynamic callable without a call_value stub")
 
 
